@@ -278,7 +278,7 @@ func runC11(w *World, r *Report, tier string) {
 				bad3 = "a path after the reply does not end in a return (loop or panic) at " + w.ipos(last)
 				return
 			}
-			b, isC := boolConst(valueOnPath(rvI(rres(path, ret)[0], len(path)-1), path))
+			b, isC := boolConst(resolveOn(rres(path, ret)[0], len(path)-1, path))
 			if isC && !b {
 				nOther++
 				if countOn(path, isZeroStateStore) == 0 {
@@ -305,7 +305,7 @@ func runC11(w *World, r *Report, tier string) {
 					T, fp := typeAssertSource(v, pkt)
 					return T != nil && w.typeStr(T) == "stanza.SMResumed" && fp == "PrevId"
 				}
-				isID := func(v ssa.Value) bool { f, _ := loadedField(v); return f == fID }
+				isID := func(v ssa.Value) bool { f, _ := loadedField(rvAny(v)); return f == fID }
 				if !((isPrev(bo.X) && isID(bo.Y)) || (isPrev(bo.Y) && isID(bo.X))) {
 					return false
 				}
@@ -368,11 +368,14 @@ func runC11(w *World, r *Report, tier string) {
 					return
 				}
 				n++
-				for _, in := range path[1:] {
+				for pi, in := range path[1:] {
 					if st, ok := in.(*ssa.Store); ok {
 						if fa, ok := st.Addr.(*ssa.FieldAddr); ok && fieldOfAddr(fa) == fErr {
 							if ex, ok := st.Val.(*ssa.Extract); ok && ex.Tuple == ssa.Value(np) {
 								continue
+							}
+							if isNilConst(resolveOn(st.Val, pi+1, path)) {
+								continue // records "no error" (the nil a helper returned on this path)
 							}
 							bad = "an error is recorded on the <failed/> path at " + w.ipos(in) + ": the fallback bind would be skipped"
 						}
